@@ -1310,11 +1310,22 @@ def run_xlsb_files(ctx, n_files, tag):
 
 # ------------------------------------------------------------------ ST_Xstring: writers against S / M (model only)
 def py_xunescape(s):
-    """reference decoder written independently of the Coq one (regular expression, one pass)"""
-    def sub(m):
-        v = int(m.group(1), 16)
-        return m.group(0) if 0xD800 <= v <= 0xDFFF else chr(v)
-    return re.sub(r"_x([0-9A-Fa-f]{4})_", sub, s)
+    """reference decoder written independently of the Coq one (regular expression at every position,
+    left to right).  An escape that names a surrogate is no escape: its first underscore is text and
+    the scan goes on behind that ONE character — so in `_xDE00_x000D_` the underscore that closes
+    the surrogate look-alike opens `_x000D_`.  (A non-overlapping re.sub consumed the look-alike
+    whole and disagreed with S, M and the code on exactly such strings: a false alarm of the
+    thorough tier, repaired here.)"""
+    out, i, pat = [], 0, re.compile(r"_x([0-9A-Fa-f]{4})_")
+    while i < len(s):
+        m = pat.match(s, i)
+        if m:
+            v = int(m.group(1), 16)
+            if not 0xD800 <= v <= 0xDFFF:
+                out.append(chr(v)); i = m.end()
+                continue
+        out.append(s[i]); i += 1
+    return "".join(out)
 
 def excel_write(rng, s):
     """s as Excel stores it: CR / C0 controls / U+FFFE / U+FFFF (and a few others) as _xHHHH_ in
